@@ -52,6 +52,14 @@ FORBIDDEN_ADAPTORS = ("rev", "skip", "step_by", "filter", "take", "skip_while", 
                       "remove", "swap_remove", "insert", "drain", "retain", "split_off", "last", "nth", "max", "min")
 
 
+# combinators that map Some(v) to None depending on v (or on an unrelated option): not conversions
+VALUE_DROPPING = {
+    "std::option::Option::filter", "std::option::Option::take_if", "std::option::Option::xor", "std::option::Option::zip",
+    "std::option::Option::and", "std::iter::Iterator::filter", "std::iter::Iterator::skip_while", "std::iter::Iterator::take_while",
+    "std::iter::Iterator::skip", "std::iter::Iterator::step_by", "std::bool::then", "std::bool::then_some", "bool::then", "bool::then_some",
+}
+
+
 def reachable_local_bodies(prog, fn_path):
     """Crate bodies reachable in the instance graph from the function (closures and helpers included)."""
     starts = [i for i, n in enumerate(prog.nodes) if n["path"] == fn_path]
@@ -566,6 +574,7 @@ def run(ctx, env):
     ctx.rule("R13.3", "producer/consumer kind agreement: the FieldValue kind decoded for each selected key is accepted by the target conversion (else the common field is None for every input)")
     ctx.rule("R13.4", "one common flow per record: the per-record map is created once per record and receives one insert per template field")
     ctx.rule("R13.6", "V9/IPFIX: common flows are made from the records of data flowsets only: the per-record map every lookup reads is an element of `fields` of the Data body (accessor helpers, public or private, inlined) - options data, whose records are not flows, is never walked")
+    ctx.rule("R13.7", "V9/IPFIX: between the per-record lookup and the common field there are only conversions: no combinator that drops a present value depending on its contents (Option::filter / take_if / xor / zip / and, Iterator::filter / skip / take_while, bool::then)")
     ctx.rule("R13.5", "NetflowPacket::Error converts to Err; the flattening helper is parse_bytes → iter → flat_map(as_netflow_common().unwrap_or_default().flowsets) → collect")
     # R13.1
     for ver, mod in ((5, "static_versions::v5::V5"), (7, "static_versions::v7::V7")):
@@ -689,6 +698,15 @@ def run(ctx, env):
                 e = an.simp(subst_types(e, tmap))
             ks = keys_in(an, prog, e, 0, tmap, P["enum"])
             want = P["keys"][nm]
+            if want:
+                # R13.7: the looked-up value reaches the slot through conversions only - a combinator that can turn a
+                # present, convertible value into None depending on the value itself makes the common field disagree
+                # with the decoded record for those values (seed r12-c13: `.filter(|a| !a.is_unspecified())`)
+                seen = [(n[2].nsyn if n[2] is not None else "?") for n in find(e, lambda n: n[0] == "call")]
+                dropping = sorted(set(c for c in seen if c in VALUE_DROPPING))
+                ctx.ob("R13.7", P["fn"], "no-value-filter:%s" % nm, bool(seen) and not dropping,
+                       ("%s passes through %s, which drops the value for some field contents" % (nm, ", ".join(dropping))) if dropping
+                       else "%d calls on the path from the lookup to %s, none of them a value-dependent filter" % (len(seen), nm), site=site(s["span"]))
             # which of several keys is preferred when a record carries more than one is not part of the property
             ctx.ob("R13.2", P["fn"], "keys:%s" % nm, sorted(set(ks)) == sorted(set(want)), "%s looks up %s, expected %s" % (nm, ks, want), site=site(s["span"]))
             if want:
